@@ -74,6 +74,56 @@ static Img parse_img( const std::string& b )
     return m;
 }
 
+// ---- C01 inspection ops: helpers ------------------------------------------------------------
+// boundary index set {0,1,count-1,count,count+1,size-1,size,2^32-1[,2^64-1]}, distinct, in this order
+static std::vector<unsigned long long> bidx( unsigned long long count, unsigned long long size, bool has_size, bool wide )
+{
+    std::vector<unsigned long long> c{ 0, 1 };
+    if ( count >= 1 )
+        c.push_back( count - 1 );
+    c.push_back( count );
+    c.push_back( count + 1 );
+    if ( has_size ) {
+        if ( size >= 1 )
+            c.push_back( size - 1 );
+        c.push_back( size );
+    }
+    c.push_back( 4294967295ULL );
+    if ( wide )
+        c.push_back( 18446744073709551615ULL );
+    std::vector<unsigned long long> r;
+    for ( auto v : c ) {
+        if ( !wide && v > 4294967295ULL )
+            continue;
+        bool dup = false;
+        for ( auto w : r )
+            dup = dup || w == v;
+        if ( !dup )
+            r.push_back( v );
+    }
+    return r;
+}
+// notes through a section / segment accessor: count, then get_note at the boundary indices; the
+// descriptor is read with descSize bytes at the returned pointer (what a user and dump::note do)
+template <class A> static std::string notes_line( A& a, unsigned long long size )
+{
+    Elf_Word    n = a.get_notes_num();
+    std::string s = "n=" + std::to_string( n );
+    for ( auto k : bidx( n, size, true, false ) ) {
+        Elf_Word    type = 0, dsz = 0;
+        std::string name;
+        char*       desc = nullptr;
+        s += " " + std::to_string( k ) + ":";
+        if ( !a.get_note( (Elf_Word)k, type, name, desc, dsz ) )
+            s += "false";
+        else
+            s += std::to_string( type ) + "/" + datastr( name.data(), name.size() ) + "/" +
+                 ( desc ? datastr( desc, dsz ) : std::string( "null" ) ) + "/" + std::to_string( dsz );
+    }
+    return s;
+}
+// ---- end of C01 inspection helpers ------------------------------------------------------------
+
 struct Ctx
 {
     std::unique_ptr<elfio>              elf;
@@ -256,6 +306,102 @@ static void run_case( const std::vector<Toks>& ops, FILE* out )
             const char*             p = a.get_string( (Elf_Word)num( t[2] ) );
             fprintf( out, "str=%s\n", p ? hex( std::string( p ) ).c_str() : "null" );
         }
+        // ---- C01 inspection ops -----------------------------------------------------------------
+        else if ( op == "notes" ) {
+            section* sec = c.elf->sections[(unsigned)num( t[1] )];
+            if ( !sec ) {
+                fprintf( out, "null\n" );
+                continue;
+            }
+            note_section_accessor a( *c.elf, sec );
+            fprintf( out, "notes %s\n", notes_line( a, sec->get_size() ).c_str() );
+        }
+        else if ( op == "segnotes" ) {
+            unsigned j = (unsigned)num( t[1] );
+            if ( j >= c.elf->segments.size() ) {
+                fprintf( out, "null\n" );
+                continue;
+            }
+            segment*              g = c.elf->segments[j];
+            note_segment_accessor a( *c.elf, g );
+            fprintf( out, "segnotes %s\n", notes_line( a, g->get_file_size() ).c_str() );
+        }
+        else if ( op == "dyn" ) {
+            section* sec = c.elf->sections[(unsigned)num( t[1] )];
+            if ( !sec ) {
+                fprintf( out, "null\n" );
+                continue;
+            }
+            dynamic_section_accessor a( *c.elf, sec );
+            Elf_Xword                n = a.get_entries_num();
+            std::string              s = "n=" + std::to_string( n );
+            for ( auto k : bidx( n, 0, false, true ) ) {
+                Elf_Xword   tag = 0, value = 0;
+                std::string str;
+                bool        r = a.get_entry( k, tag, value, str );
+                s += " " + std::to_string( k ) + ":" + ( r ? "true" : "false" ) + "/" + std::to_string( tag ) + "/" +
+                     std::to_string( value ) + "/" + datastr( str.data(), str.size() );
+            }
+            fprintf( out, "dyn %s\n", s.c_str() );
+        }
+        else if ( op == "modinfo" ) {
+            section* sec = c.elf->sections[(unsigned)num( t[1] )];
+            if ( !sec ) {
+                fprintf( out, "null\n" );
+                continue;
+            }
+            modinfo_section_accessor a( sec );
+            Elf_Word                 n = a.get_attribute_num();
+            std::string              s = "n=" + std::to_string( n ), first;
+            for ( Elf_Word i = 0; i < n && i < 64; ++i ) {
+                std::string f, v;
+                a.get_attribute( i, f, v );
+                if ( i == 0 )
+                    first = f;
+                s += " " + datastr( f.data(), f.size() ) + "=" + datastr( v.data(), v.size() );
+            }
+            for ( auto k : bidx( n, 0, false, false ) ) {
+                std::string f, v;
+                s += " get:" + std::to_string( k ) + ":";
+                if ( a.get_attribute( (Elf_Word)k, f, v ) )
+                    s += datastr( f.data(), f.size() ) + "=" + datastr( v.data(), v.size() );
+                else
+                    s += "false";
+            }
+            std::vector<std::string> names;
+            if ( n > 0 )
+                names.push_back( first );
+            names.push_back( "zz_absent" );
+            for ( auto& f : names ) {
+                std::string v;
+                s += " byname:" + datastr( f.data(), f.size() ) + "=";
+                s += a.get_attribute( f, v ) ? datastr( v.data(), v.size() ) : std::string( "false" );
+            }
+            fprintf( out, "modinfo %s\n", s.c_str() );
+        }
+        else if ( op == "syms" ) {
+            section* sec = c.elf->sections[(unsigned)num( t[1] )];
+            if ( !sec ) {
+                fprintf( out, "null\n" );
+                continue;
+            }
+            symbol_section_accessor a( *c.elf, sec );
+            Elf_Xword               n = a.get_symbols_num();
+            std::string             s = "n=" + std::to_string( n );
+            for ( auto k : bidx( n, 0, false, true ) ) {
+                std::string   name;
+                Elf64_Addr    value = 0;
+                Elf_Xword     size  = 0;
+                unsigned char bind = 0, type = 0, other = 0;
+                Elf_Half      shndx = 0;
+                bool          r     = a.get_symbol( k, name, value, size, bind, type, shndx, other );
+                s += " " + std::to_string( k ) + ":" + ( r ? "true" : "false" ) + "/" + datastr( name.data(), name.size() ) + "/" +
+                     std::to_string( value ) + "/" + std::to_string( size ) + "/" + std::to_string( bind ) + "/" +
+                     std::to_string( type ) + "/" + std::to_string( shndx ) + "/" + std::to_string( other );
+            }
+            fprintf( out, "syms %s\n", s.c_str() );
+        }
+        // ---- end of C01 inspection ops ----------------------------------------------------------
         else if ( op == "create" ) {
             unsigned char cls = kvn( t, "cls", 64 ) == 32 ? ELFCLASS32 : ELFCLASS64;
             std::string   e;
